@@ -5,6 +5,7 @@ package actor
 import (
 	"context"
 	"fmt"
+	"os"
 	"sort"
 	"strings"
 	"testing"
@@ -61,7 +62,9 @@ func c04GenKind(kind string) func(t *rapid.T) c04Case {
 		c.NumMB = rapid.SampledFrom([]int{1, 1, 2}).Draw(t, "numMB")
 		c.PoolDepth = rapid.IntRange(0, 3).Draw(t, "poolDepth")
 		np := rapid.IntRange(2, 4).Draw(t, "producers")
-		nSenders := rapid.IntRange(1, 3).Draw(t, "senders")
+		// the fair mailbox's interesting races need several goroutines on ONE sender's
+		// sub-queue: bias towards few sender identities
+		nSenders := rapid.SampledFrom([]int{1, 1, 1, 2, 2, 3}).Draw(t, "senders")
 		for p := 0; p < np; p++ {
 			n := rapid.IntRange(1, 3).Draw(t, "enqs")
 			var ops []c04Enq
@@ -298,8 +301,10 @@ func c04Exec(x *vfkit.X, c c04Case) {
 				rc := getContext()
 				rc.build(context.Background(), senders[e.Sender], nil, &c04Msg{ID: id, Prio: e.Prio, MB: e.MB, Sender: e.Sender}, true)
 				inv := clock.Tick()
+				c04DebugSeg(fmt.Sprintf("t%d enq %d invoke", pi, id), mbs[e.MB])
 				err := mbs[e.MB].Enqueue(rc)
 				ret := clock.Tick()
+				c04DebugSeg(fmt.Sprintf("t%d enq %d return", pi, id), mbs[e.MB])
 				acc := 0
 				if err == nil {
 					acc = 1
@@ -312,8 +317,10 @@ func c04Exec(x *vfkit.X, c c04Case) {
 	}
 	deqOnce := func(mi, thread int) {
 		inv := clock.Tick()
+		c04DebugSeg(fmt.Sprintf("t%d deq invoke", thread), mbs[mi])
 		rc := mbs[mi].Dequeue()
 		ret := clock.Tick()
+		c04DebugSeg(fmt.Sprintf("t%d deq return", thread), mbs[mi])
 		id := -1
 		if rc != nil {
 			m, ok := rc.Message().(*c04Msg)
@@ -353,7 +360,7 @@ func c04Exec(x *vfkit.X, c c04Case) {
 		})
 	}
 	s.KeepTrace = true
-	out := s.Run(vfe3.Picker(x))
+	out := s.Run(vfe3.PickerWith(x, vfe3.Opts{PreemptPct: 45, MaxYields: 40, AvoidRepick: true}))
 	for _, th := range s.Threads() {
 		if th.Panic != nil {
 			x.Failf(c.Kind+":panic", "thread %s panicked: %v\n%s", th.Name, th.Panic, th.Stack)
@@ -367,6 +374,38 @@ func c04Exec(x *vfkit.X, c c04Case) {
 		x.Failf(c.Kind+":deadlock", "no runnable thread: %s", s.Describe())
 	}
 	// sequential final drain (no scheduler active: shims pass through)
+	if os.Getenv("VF_C04_DEBUG") != "" {
+		for mi := range mbs {
+			if sm, ok := mbs[mi].(*UnboundedSegmentedMailbox); ok {
+				var parts []string
+				seen := map[*segment]bool{}
+				for seg := sm.head.Load(); seg != nil && !seen[seg]; seg = seg.next.Load() {
+					seen[seg] = true
+					var d []string
+					for i := range seg.data {
+						if v := seg.data[i].Load(); v != nil {
+							d = append(d, fmt.Sprint(v.Message().(*c04Msg).ID))
+						} else {
+							d = append(d, "-")
+						}
+					}
+					parts = append(parts, fmt.Sprintf("seg%p(w=%d d=%d data=%v)", seg, seg.writeIdx.Load(), seg.deqIdx.Load(), d))
+				}
+				fmt.Printf("DEBUG mb%d segments from head: %v tail=%p len=%d\n", mi, parts, sm.tail.Load(), sm.Len())
+			}
+			if fm, ok := mbs[mi].(*UnboundedFairMailbox); ok {
+				var parts []string
+				for n := fm.active.head.Load(); n != nil; n = (*senderNode)(n.next) {
+					if v := n.value.Load(); v != nil {
+						parts = append(parts, fmt.Sprintf("sq(pending=%d active=%v empty=%v)", v.pending, v.active.Load(), v.mailbox.IsEmpty()))
+					} else {
+						parts = append(parts, "dummy")
+					}
+				}
+				fmt.Printf("DEBUG mb%d active list before final drain: %v len=%d\n", mi, parts, fm.Len())
+			}
+		}
+	}
 	for mi := range mbs {
 		nils := 0
 		for i := 0; i < 40 && nils < 2; i++ {
@@ -485,6 +524,23 @@ func c04Exec(x *vfkit.X, c c04Case) {
 		}
 		x.Failf(c.Kind+":not-linearizable", "mailbox %d (%s cap=%d prioFn=%d): history has no linearization: %s", mi, c.Kind, c04EffCap(c), c.PrioFn, vfe3.FormatOps(h))
 	}
+}
+
+func c04DebugSeg(tag string, mb Mailbox) {
+	if os.Getenv("VF_C04_DEBUG") == "" {
+		return
+	}
+	sm, ok := mb.(*UnboundedSegmentedMailbox)
+	if !ok {
+		return
+	}
+	desc := func(seg *segment) string {
+		if seg == nil {
+			return "nil"
+		}
+		return fmt.Sprintf("%p{w=%d d=%d next=%p}", seg, seg.writeIdx.Peek(), seg.deqIdx.Peek(), seg.next.Peek())
+	}
+	fmt.Printf("DEBUG %-28s head=%s tail=%s\n", tag, desc(sm.head.Peek()), desc(sm.tail.Peek()))
 }
 
 func c04Hist(hist [][]vfe3.Op) string {
